@@ -935,7 +935,12 @@ func recreatedStream(t *testing.T, st *Stats) {
 }
 
 func TestC15(t *testing.T) {
-	runCore(t, coreCfg{extra: recreatedStream, prop: "C15", profile: profC15, quickSeeds: 25, thoroughSeeds: 1000, nops: 100, metamorphic: true})
+	runCore(t, coreCfg{extra: func(t *testing.T, st *Stats) {
+		recreatedStream(t, st)
+		if !hasConcrete(st.Violations) {
+			pruneServiceLoop(t, st)
+		}
+	}, prop: "C15", profile: profC15, quickSeeds: 25, thoroughSeeds: 1000, nops: 100, metamorphic: true})
 }
 
 // TestShrink: developer helper — run one seed of ProfileAll, shrink the first finding, print the replay.
